@@ -182,9 +182,85 @@ def eval_size(r, kind, comp_or_shape, flat, offset, elw, dynmode):
             r.violate(key + "|too-small", case, f"memref<{tshape}x{el}{lay}> at run-time shape {shp}: {got} bytes are allocated but the layout touches {want} bytes")
         elif got > want:
             r.count("over_allocated_cases")
+        if dyn and not r.violations:
+            dynamic_alloc_level(r, key, case, tshape, el, lay, shp, got)
     r.obs = ("size", kind, comp_or_shape, flat, offset, elw, dynmode)
     r.nontrivial = kind != "none"
     r.sample = dict(kind="size", type=f"memref<{'x'.join(map(str, shape))}x{el}{lay}>")
+
+
+def dynamic_alloc_level(r, key, case, tshape, el, lay, shp, size_bytes):
+    """a dynamically sized buffer makes snax-allocate{mode=auto} take the run-time allocation path: the request passed to snax_alloc_l1 carries the computed size
+    and the declared alignment, and the memref descriptor handed to the users holds the returned pointers, offset 0 and the run-time sizes"""
+    text = (
+        'builtin.module {\nfunc.func @f() {\n  %d0 = "test.op"() : () -> index\n'
+        f'  %a = memref.alloc(%d0) {{alignment = 64 : i64}} : memref<{tshape}x{el}{lay}, "L1">\n'
+        f'  "test.op"(%a) {{verif.id = 1 : i32}} : (memref<{tshape}x{el}{lay}, "L1">) -> ()\n  func.return\n}}\n}}\n'
+    )
+    try:
+        mod = common.compile_text(text, "memref-to-snax,canonicalize,snax-allocate{mode=auto}")
+    except common.Rejected as e:
+        r.count("dynalloc_rejected:" + str(e)[:60])
+        return
+    if not any(op.name == "func.call" and op.callee.string_value() == "snax_alloc_l1" for op in mod.walk()):
+        # the size folded to a constant (layouts whose dynamic entries do not change the footprint): auto mode allocates statically, covered by the mini family
+        r.count("dynalloc_static_path")
+        return
+    calls, seen = [], []
+    P, A = 0x5004, 0x5040
+
+    def h_call(it, op):
+        callee = op.callee.string_value()
+        if callee != "snax_alloc_l1":
+            raise InterpError("call " + callee)
+        calls.append(tuple(it.get(o) for o in op.operands))
+        return [("retptr", len(calls))]
+
+    def h_insert(it, op):
+        d = dict(it.get(op.container))
+        d[tuple(op.position.get_values())] = it.get(op.value)
+        return [d]
+
+    def h_extract(it, op):
+        return [it.get(op.operands[0])[tuple(op.position.get_values())]]
+
+    def h_test(it, op):
+        if op.operands:
+            seen.append(it.get(op.operands[0]))
+            return []
+        return [shp[0]]
+
+    h = {
+        "func.call": h_call, "llvm.load": lambda it, op: [{(0,): P, (1,): A}], "llvm.extractvalue": h_extract, "llvm.mlir.undef": lambda it, op: [{}],
+        "llvm.insertvalue": h_insert, "builtin.unrealized_conversion_cast": lambda it, op: [it.get(op.operands[0])], "test.op": h_test,
+    }
+    it = Interp(handlers=h, budget=5000)
+    try:
+        it.run_func(find_func(mod, "f"), [])
+    except (UseBeforeDef, InterpError, KeyError, TypeError) as e:
+        r.violate(key + "|dyn-exec", case, f"run-time allocation code cannot be executed: {type(e).__name__}: {e}")
+        return
+    r.count("dynamic_allocations_checked")
+    r.transitions += it.steps
+    bad = None
+    if len(calls) != 1:
+        bad = f"{len(calls)} calls to snax_alloc_l1"
+    elif calls[0][0] != size_bytes:
+        bad = f"snax_alloc_l1 is asked for {calls[0][0]} bytes, the computed size is {size_bytes}"
+    elif calls[0][1] != 64:
+        bad = f"snax_alloc_l1 is asked for alignment {calls[0][1]}, declared 64"
+    elif len(seen) != 1 or not isinstance(seen[0], dict):
+        bad = f"the user of the buffer receives {seen}"
+    else:
+        d = seen[0]
+        want = {(0,): P, (1,): A, (2,): 0}
+        want.update({(3, i): n for i, n in enumerate(shp)})
+        for k_, v in want.items():
+            if d.get(k_) != v:
+                bad = f"memref descriptor field {list(k_)} = {d.get(k_)} instead of {v} (pointer, aligned pointer, offset, sizes {shp})"
+                break
+    if bad:
+        r.violate(key + "|dyn-descriptor", case, f"memref<{tshape}x{el}{lay}> at run-time shape {shp}: {bad}")
 
 
 def _prod(xs):
